@@ -34,6 +34,16 @@ CLAIMS = {
             'scipy.signal.lsim and is exercised, not modelled'),
     'C12': ('partial: KCL, element laws, i_C = C dv/dt, v_L = L di/dt for EVERY state/input pair (hence every sample whatever the integrator), rest, '
             'input order; the integrator lsim is a Section variable (compared against an independent integrator by the harness)'),
+    'C13': ('partial: executable model of the wire closure, representatives, labelling (auto-numbering with the skip loop), ground and the per-class '
+            'terminal swap, with Python\'s set iteration orders as PARAMETERS: closure = wire connectivity, labels injective on classes, order '
+            'independence up to a renaming of unlabelled nodes, invariance under any injective point map (rotation, translation, rescaling), wire '
+            'subdivision and permutation of the symbol list; schemdraw geometry and 2-decimal rounding are runtime facts read from live drawings'),
+    'C14': ('partial: adapters modelled on top of the exact C18 formatting model: reverse = text of the negated value, real and Cartesian texts read '
+            'back within half a unit of the p-th digit (C18\'s carry region kept as hypothesis), polar/sinusoid text shape, peak = sqrt2 x RMS, '
+            'sine reference = arg + pi/2, declarative route = direct adapter; angle texts and arrow geometry are inputs/unmodelled'),
+    'C15': ('partial: data-path model (symbol record <-> JSON-like tree, constructor table, merge of circuit values, deg/sin flags): '
+            'translate(load(save d)) = translate d for all drawings over the persistable kinds, for any number of cycles; declarative builder = '
+            'programmatic builder on a grid semantics; the schemdraw object graph and the json library are outside the model'),
     'C16': ('full for solutions-to-solutions (open removal, contraction by induction over the loop, re-grounding), names-only, exemption list, '
             'well-posedness preserved under wf; the no-wf variant is stated only'),
     'C17': ('full on the model: loaders are interpreters of the regenerated loader/constructor tables; every documented kind loads to exactly its '
@@ -47,13 +57,7 @@ CLAIMS = {
             'loaders, solver and transformers; Python object identity, default-argument objects and module state are observed by the harness '
             '(fresh-process comparison, deep fingerprints), not modelled'),
 }
-PENDING = {
-    'C13': 'harness built (live schemdraw drawings vs netlist computed from the grid program); the Coq model of the wire closure / labelling and its '
-           'theorems are not integrated yet, so the property is not claimed at proof level in this manifest',
-    'C14': 'harness built (independent label parser vs the adapter\'s solution object); the Coq model of the adapters on top of the C18 formatting '
-           'model is not integrated yet',
-    'C15': 'harness built (JSON round trips x4, declarative vs programmatic); the Coq data-path model is not integrated yet',
-}
+PENDING = {}
 NOT_YET = 'not yet built in this round (planned per DESIGN.md §6; the technique applies)'
 checks = []
 for p in props:
